@@ -57,6 +57,8 @@ def configs(tier):
         for mode in ('static', 'dynamic'):
             for st in ('batch', 'geometric', 'uniform', 'interval'):
                 add(group='fresh_flags', cls=cls, mode=mode, storage=st, d=2, q=1, T=3 if tier == 'quick' else 4, _cost=400)
+    for cls in CLASSES:
+        add(group='given_objects', cls=cls, d=2, _cost=20)
     for cls in ('BatchSage', 'IntervalSage'):
         for nm in ('str', 'int', 'float', 'mixed'):
             for q in (1, 2):
@@ -269,3 +271,26 @@ def _fresh_flags(env, cfg):
         if cfg['storage'] in ('batch', 'interval'):
             now = list(storage.get_data()[0])
             env.claim(f"each_observation_stored_once_t{t + 1}", len(now) == len(expected) and all(a is c for a, c in zip(now, expected)))
+
+
+def _given_objects(env, cfg):
+    """storage / imputer objects handed to a constructor are used as they are - also when they are still empty (falsy)"""
+    from ixai.storage import BatchStorage, IntervalStorage, GeometricReservoirStorage, UniformReservoirStorage
+    from ixai.imputer import MarginalImputer, DefaultImputer
+    cls = CLASSES[cfg['cls']]
+    names = names_for('str', cfg['d'])
+    model, loss = UFModel(env, names), UFLoss(env)
+    storages = [IntervalStorage(size=3)] if cls is IntervalSage else \
+        [BatchStorage(), IntervalStorage(size=3), GeometricReservoirStorage(size=3), UniformReservoirStorage(size=3)]
+    for st in storages:
+        imp = DefaultImputer(model, {n: 0 for n in names})
+        if cls in (IncrementalSage, IncrementalPFI):
+            ex = guarded(env, 'ctor', cls, model, loss, names, storage=st, imputer=imp)
+            ex2 = guarded(env, 'ctor', cls, model, loss, names, storage=st)
+        else:
+            ex = guarded(env, 'ctor', cls, model, names, loss, storage=st, imputer=imp)
+            ex2 = guarded(env, 'ctor', cls, model, names, loss, storage=st)
+        env.claim('given_empty_storage_is_used', ex._storage is st and ex2._storage is st, detail=type(st).__name__)
+        env.claim('given_imputer_is_used', ex._imputer is imp)
+        env.claim('default_imputer_samples_from_the_given_storage', getattr(ex2._imputer, 'storage_object', None) is st,
+                  detail=type(st).__name__)
